@@ -19,11 +19,34 @@ const RULE: &str = "constructive accepted ledgers incl. CAPRETURN/ACCUMULATION s
 
 /// Ok(None) = conserved; Ok(Some(msg)) = violated
 pub fn conservation(ledger: &[Tx], obs: &mut Obs, classify: bool) -> Result<Option<String>, Verdict> {
-    let agg = match model::aggregate(ledger, &NoFx) {
+    conservation_fx(ledger, obs, classify, false)
+}
+
+/// The harness's own reading of the bundled HMRC tables (fxtable.rs), exact rationals.
+pub struct BundledFx;
+impl model::Fx for BundledFx {
+    fn rate(&self, code: &str, year: i32, month: u32) -> Option<Rat> {
+        crate::fxtable::bundled().get(&(code.to_string(), year, month)).map(|d| Rat::from_dec(*d))
+    }
+}
+
+/// `foreign`: amounts may be in foreign currencies; expected GBP costs = amount / bundled rate of
+/// the line's own month (exact), the tool runs with its default rate cache.
+pub fn conservation_fx(ledger: &[Tx], obs: &mut Obs, classify: bool, foreign: bool) -> Result<Option<String>, Verdict> {
+    let agg = match if foreign { model::aggregate(ledger, &BundledFx) } else { model::aggregate(ledger, &NoFx) } {
         Ok(a) => a,
+        Err(e) if foreign => {
+            // a needed rate is absent: the run must fail (C08 judges how); nothing to conserve
+            let _ = e;
+            if classify {
+                obs.class("needs_a_missing_rate");
+            }
+            return Err(Verdict::Pass);
+        }
         Err(e) => return Err(Verdict::fail(format!("harness: FX needed {e:?}"))),
     };
-    let report = match tool::calc(ledger) {
+    let out = if foreign { tool::calc_with(ledger, None, Some(crate::props::c15::fx()), &tool::all_years_config()) } else { tool::calc(ledger) };
+    let report = match out {
         Outcome::Ok(r) => r,
         Outcome::Err(_) => {
             if classify {
@@ -121,7 +144,61 @@ pub fn check(gl: &GenLedger, obs: &mut Obs) -> Verdict {
     }
 }
 
+#[derive(Clone, Debug, serde::Serialize, serde::Deserialize)]
+pub struct FxCase {
+    pub gl: GenLedger,
+    pub cur: Vec<u8>,
+}
+
+const RULE_FX: &str = "ledgers 2015-2024 whose every monetary field independently is GBP or one of 10 foreign currencies (price and fee of one line often in different currencies); expected cost = amount / bundled HMRC rate of the line's month, exact; non-trivial = a purchase whose price and fee are in different currencies, or one currency used in two months; distinct by DSL hash";
+
+fn strat_fx(t: crate::runner::Tier) -> proptest::strategy::BoxedStrategy<FxCase> {
+    use proptest::prelude::*;
+    let cfg = lgen::GenCfg::basic().secs(2).days(3, t.pick(12, 24)).splits(lgen::SplitMode::Terminating).events(true).years(2015, 2024);
+    (lgen::ledger_strategy(cfg), proptest::collection::vec(0u8..16, 24)).prop_map(|(gl, cur)| FxCase { gl, cur }).boxed()
+}
+
+pub fn check_fx(c: &FxCase, obs: &mut Obs) -> Verdict {
+    if lgen::has_excluded_placement(&c.gl.ledger) {
+        obs.excluded += 1;
+        return Verdict::Pass;
+    }
+    let ledger = crate::props::c08::apply_currencies(&crate::props::c08::Case { gl: c.gl.clone(), cur: c.cur.clone(), folder: vec![] });
+    obs.hash = crate::led::hash_str(&crate::led::to_dsl(&ledger));
+    if obs.sample.is_none() {
+        obs.sample = Some(tool::sample_of(&ledger));
+    }
+    let mut two_cur = false;
+    let mut months: BTreeMap<String, std::collections::BTreeSet<(i32, u32)>> = BTreeMap::new();
+    for t in &ledger {
+        let ms = t.monies();
+        if matches!(t.op, Op::Buy { .. }) && ms.len() == 2 && ms[0].c != ms[1].c && !ms[1].a.is_zero() {
+            two_cur = true;
+        }
+        for m in ms {
+            if !m.is_gbp() {
+                months.entry(m.c.clone()).or_default().insert((chrono::Datelike::year(&t.date), chrono::Datelike::month(&t.date)));
+            }
+        }
+    }
+    let two_months = months.values().any(|s| s.len() >= 2);
+    match conservation_fx(&ledger, obs, true, true) {
+        Err(v) => v,
+        Ok(None) => {
+            obs.nontrivial = two_cur || two_months;
+            obs.class_if(two_cur, "purchase_price_and_fee_in_different_currencies");
+            obs.class_if(two_months, "one_currency_in_two_months");
+            obs.class_if(months.is_empty(), "all_gbp");
+            Verdict::Pass
+        }
+        Ok(Some(msg)) => Verdict::fail(format!("{msg}\nledger:\n{}", crate::led::to_dsl(&ledger))),
+    }
+}
+
 fn run(ctx: &Ctx) {
+    if !ctx.run_prop("foreign_currency", RULE_FX, ctx.cases(600, 80_000), strat_fx, check_fx) {
+        return;
+    }
     for (name, strat, q, t) in common::standard_strata() {
         if !ctx.run_prop(name, RULE, ctx.cases(q, t), strat, check) {
             return;
@@ -136,6 +213,9 @@ fn run(ctx: &Ctx) {
 }
 
 fn replay(name: &str, case: &Value) -> Option<Verdict> {
+    if name == "foreign_currency" {
+        return Some(replay_case::<FxCase, _>(case, check_fx).unwrap_or_else(Verdict::Fail));
+    }
     if common::LEDGER_CHECKS.contains(&name) {
         Some(replay_case::<GenLedger, _>(case, check).unwrap_or_else(Verdict::Fail))
     } else {
